@@ -1229,7 +1229,20 @@ async fn run(_tier: Tier) {
             }
             // The datagram server gets a different response size limit
             // mid-run: from then on the new limit counts.
-            if sim::chance("cfg.dgram_reconfigure", 1, 4) {
+            if sim::chance("cfg.dgram_reconfigure_before_the_loop_runs", 1, 8) {
+                // reconfigure() right behind the spawn, before the server's
+                // run loop has been polled for the first time: it returned
+                // Ok, so the new limit is the one in force from the start.
+                let new_limit = *sim::pick("cfg.dgram_new_limit", &[Some(512u16), Some(700), Some(1232), None]);
+                let mut ncfg = dgram::Config::new();
+                ncfg.set_max_response_size(new_limit);
+                ncfg.set_write_timeout(Duration::from_millis(dg_write_timeout_ms));
+                sim::stat("fault.dgram_reconfigure_before_the_loop_runs");
+                ev!("datagram server reconfigure() before its loop runs: max_response_size {:?}", new_limit);
+                if dsrv.reconfigure(ncfg).is_ok() {
+                    *dgram_limit_log.lock().unwrap() = vec![(0, new_limit)];
+                }
+            } else if sim::chance("cfg.dgram_reconfigure", 1, 4) {
                 let at = 5 + sim::draw("cfg.dgram_reconfigure_at_ms", 80);
                 let new_limit = *sim::pick("cfg.dgram_new_limit", &[Some(512u16), Some(700), Some(1232), None]);
                 let d3 = dsrv.clone();
